@@ -7,6 +7,7 @@ import (
 	"net"
 	"strings"
 	"sync"
+	"sync/atomic"
 	"testing/synctest"
 	"time"
 
@@ -74,12 +75,26 @@ type Client struct {
 	dropped  bool // the harness closed the client end
 	SessionID string
 	writeMu  sync.Mutex
+	paused   atomic.Bool
+	resume   chan struct{}
+}
+
+// Pause makes the client stop reading from its connection (a slow consumer: the transport's
+// back-pressure then blocks the broker's writes to it); Resume lets it read again.
+func (c *Client) Pause() { c.paused.Store(true) }
+func (c *Client) Resume() {
+	if c.paused.CompareAndSwap(true, false) {
+		select {
+		case c.resume <- struct{}{}:
+		default:
+		}
+	}
 }
 
 // NewClient opens a connection to node (no CONNECT sent yet).
 func (w *World) NewClient(name string, node int, policy AckPolicy) *Client {
 	cEnd, sEnd := net.Pipe()
-	c := &Client{Name: name, w: w, Node: w.Node(node), conn: cEnd, enc: encoder.New(), Policy: policy}
+	c := &Client{Name: name, w: w, Node: w.Node(node), conn: cEnd, enc: encoder.New(), Policy: policy, resume: make(chan struct{}, 1)}
 	w.Clients = append(w.Clients, c)
 	c.Node.accept(sEnd)
 	go c.readLoop()
@@ -88,6 +103,9 @@ func (w *World) NewClient(name string, node int, policy AckPolicy) *Client {
 
 func (c *Client) readLoop() {
 	for {
+		if c.paused.Load() {
+			<-c.resume
+		}
 		p, err := readPacket(c.conn)
 		if err != nil {
 			c.mu.Lock()
